@@ -93,6 +93,8 @@ def strategy(tier):
       'ops': sized_list(weighted(*pairs), 0, 50 if tier == 'quick' else 140),
       # two clients of one process built from the same zk:// URI (each through ScalesUriParser, so each owns what the
       # parser gave it); one of them (which) is closed before step close_at, the other must keep following the tree
+      # another greenlet of the consumer keeps taking snapshots of the set (get_members) while the history runs
+      'snapshot_reader': st.sampled_from([False, False, True]),
       'twin_uri_client': st.sampled_from([None, None, [0, 0], [1, 0], [0, 3], [1, 3], [0, 12], [1, 12]]),
   })
 
@@ -243,6 +245,17 @@ def execute(plan):
             raise Violation(ID, 'balancer-mismatch', 'balancer %d knows %r, tree has %r %s%s' % (
                 n, sorted(got), sorted(wantep), where, '; its twin was closed' if twin and None in lbs else ''))
 
+    reader = None
+    if plan.get('snapshot_reader'):
+      def read_snapshots():
+        while True:
+          try:
+            sss[0].get_members()
+          except Exception:
+            pass                  # (a set that was stopped meanwhile; what the snapshots contain is not what is checked)
+          gevent.sleep(0.001)
+      reader = gevent.spawn(read_snapshots)
+      flags.add('snapshots_taken_concurrently')
     parent_deleted_with_members = False
     check(-1, ['initial'])
     def close_twin():
@@ -381,6 +394,8 @@ def execute(plan):
       if not zk.z_create('%s/%s' % (PATH, NAMES[i]), data(i)):
         zk.z_delete('%s/%s' % (PATH, NAMES[i]))
     check(len(plan['ops']), ['final'])
+    if reader is not None:
+      reader.kill()
     sss[0].stop()
     for lb in lbs:
       if lb is not None:
